@@ -67,7 +67,9 @@ func c01Dims() []c01Dim {
 			func(i *ref.Iface) {
 				i.Route = []ref.Table{T("prefix", "2001:db8:ffff::/48", "deprecated", true, "lifetime", "90m")}
 			},
-			func(i *ref.Iface) { i.Route = []ref.Table{T("deprecated", true, "lifetime", "90m", "preference", "high")} },
+			func(i *ref.Iface) {
+				i.Route = []ref.Table{T("deprecated", true, "lifetime", "90m", "preference", "high")}
+			},
 		}},
 		{"rdnss", []func(*ref.Iface){
 			none,
@@ -91,7 +93,9 @@ func c01Dims() []c01Dim {
 			none,
 			func(i *ref.Iface) { i.PREF64 = []ref.Table{T()} },
 			func(i *ref.Iface) { i.PREF64 = []ref.Table{T("prefix", "2001:db8:64::/64")} },
-			func(i *ref.Iface) { i.PREF64 = []ref.Table{T("prefix", "64:ff9b::/96"), T("prefix", "2001:db8:64::/48")} },
+			func(i *ref.Iface) {
+				i.PREF64 = []ref.Table{T("prefix", "64:ff9b::/96"), T("prefix", "2001:db8:64::/48")}
+			},
 		}},
 	}
 }
@@ -161,8 +165,8 @@ func c01States() []c01State {
 		mk("one/fwd/nomac", one, nil, "", true, 30*time.Minute, false),
 		mk("empty/fwd", nil, nil, mac, true, 0, false),
 		mk("source-fails", rich, nested, mac, true, 0, true),
-		mk("rich-reversed/fwd/+3h", rev(rich), nestedRev, mac, true, 3 * time.Hour, false),
-		mk("rich/nofwd/+90m/nomac", rich, nested, "", false, 90 * time.Minute, false),
+		mk("rich-reversed/fwd/+3h", rev(rich), nestedRev, mac, true, 3*time.Hour, false),
+		mk("rich/nofwd/+90m/nomac", rich, nested, "", false, 90*time.Minute, false),
 	}
 }
 
@@ -501,7 +505,10 @@ func TestVerifC01(t *testing.T) {
 		for m := range c01Max {
 			for _, group := range []bool{false, true} {
 				for _, base := range [][]int{make([]int, len(dims)), allOn} {
-					{ dd, ds := c01Doc(dims, base, h, m, group); one(dd, ds, true) }
+					{
+						dd, ds := c01Doc(dims, base, h, m, group)
+						one(dd, ds, true)
+					}
 					_ = base
 				}
 				if !r.Thorough() && (m != 0 || group) && h > 2 {
